@@ -33,6 +33,9 @@ namespace MEDDLY {
 
         dd_edge res(e1.getForest());
 
+        if (!res.getForest()) {
+            throw error(error::FOREST_MISMATCH, __FILE__, __LINE__);
+        }
         if (res.getForest()->isRangeType(range_type::BOOLEAN)) {
             apply(UNION, e1, e2, res);
         } else {
@@ -49,6 +52,9 @@ namespace MEDDLY {
 
         dd_edge res(e1.getForest());
 
+        if (!res.getForest()) {
+            throw error(error::FOREST_MISMATCH, __FILE__, __LINE__);
+        }
         if (res.getForest()->isRangeType(range_type::BOOLEAN)) {
             apply(DIFFERENCE, e1, e2, res);
         } else {
@@ -65,6 +71,9 @@ namespace MEDDLY {
 
         dd_edge res(e1.getForest());
 
+        if (!res.getForest()) {
+            throw error(error::FOREST_MISMATCH, __FILE__, __LINE__);
+        }
         if (res.getForest()->isRangeType(range_type::BOOLEAN)) {
             apply(INTERSECTION, e1, e2, res);
         } else {
@@ -116,6 +125,9 @@ namespace MEDDLY {
 
     dd_edge operator+=(dd_edge &res, const dd_edge &upd)
     {
+        if (!res.getForest()) {
+            throw error(error::FOREST_MISMATCH, __FILE__, __LINE__);
+        }
         if (res.getForest()->isRangeType(range_type::BOOLEAN)) {
             apply(UNION, res, upd, res);
         } else {
@@ -126,6 +138,9 @@ namespace MEDDLY {
 
     dd_edge operator-=(dd_edge &res, const dd_edge &upd)
     {
+        if (!res.getForest()) {
+            throw error(error::FOREST_MISMATCH, __FILE__, __LINE__);
+        }
         if (res.getForest()->isRangeType(range_type::BOOLEAN)) {
             apply(DIFFERENCE, res, upd, res);
         } else {
@@ -136,6 +151,9 @@ namespace MEDDLY {
 
     dd_edge operator*=(dd_edge &res, const dd_edge &upd)
     {
+        if (!res.getForest()) {
+            throw error(error::FOREST_MISMATCH, __FILE__, __LINE__);
+        }
         if (res.getForest()->isRangeType(range_type::BOOLEAN)) {
             apply(INTERSECTION, res, upd, res);
         } else {
